@@ -13,9 +13,9 @@ from ..node import NodeError
 PROP = "C18"
 ORDINARY = ("invalid_argument", "runtime_error", "out_of_range", "std", "bad_alloc", "walk")
 POLICIES = ["none", "keep", "keep", "evict_always", "evict_random", "lossy_set", "broken"]
-FAULTS = {"throw": 1, "short": 2, "wrong_form": 3, "short_wrong_form": 5}
+FAULTS = {"throw": 1, "short": 2, "wrong_form": 3, "long": 4, "short_wrong_form": 5}
 META_COMPARED = ("length", "purelist_depth", "minmax_depth", "branch_depth", "keys", "numfields", "type")
-BAD_GEN = ("throw", "short", "wrong_form", "short_wrong_form")
+BAD_GEN = ("throw", "short", "wrong_form", "short_wrong_form", "long")
 META = {"length": 0, "form": 1, "type": 2, "purelist_depth": 3, "minmax_depth": 4, "branch_depth": 5, "keys": 6,
         "numfields": 7}
 # operations on a virtual array with declared form and length that must not call the generator
@@ -29,7 +29,9 @@ def generate(rng, opts):
     r = rng
     if r.random() < opts.get("lazy_partition_rate", 0.3):
         return generate_partitioned(r, opts)
-    t = lg.gen_type(r, 0, opts)
+    bias = r.choice([None, None, None, {"rec": 5, "opt": 4}, {"opt": 5}, {"union": 4, "rec": 2}, {"list": 3, "reglist": 3}])
+    topts = dict(opts, _type_bias=bias) if bias else opts
+    t = lg.gen_type(r, 0, topts)
     n = r.choice([0, 1, 2, 3, 3, 5, 8])
     truth = lg.SpecGen(r, opts).array(t, n)
     declare_form = r.random() < 0.6
@@ -50,7 +52,13 @@ def generate(rng, opts):
     elif policy == "lossy_set":
         cache["set"] = [1] * 400
     enabled = {k: r.random() < 0.7 for k in OPKINDS}
-    info = {"length": lg.spec_len(truth), "depth": lg.depth_of(truth), "keys": lg.keys_of(truth)}
+    info = {"length": lg.spec_len(truth), "depth": lg.depth_of(truth), "keys": lg.keys_of(truth), "top": truth["k"]}
+    try:
+        inner = [len(x) for x in lg.value_of(truth) if isinstance(x, list)]
+    except Exception:
+        inner = []
+    if inner:
+        info["inner"] = max(inner)
     events = []
     nslots = 1
     nops = r.randint(3, opts.get("lazy_max_ops", 12))
@@ -73,6 +81,7 @@ def generate(rng, opts):
             kinds = ["throw"]
             if declare_length:
                 kinds.append("short")
+                kinds.append("long")
                 if not declare_form:
                     kinds.append("short_wrong_form")
             if declare_form:
@@ -87,7 +96,10 @@ def generate(rng, opts):
         events.append(ev)
         nslots += 1
     return {"mode": "virtual", "truth": truth, "lazy": lazy, "cache": cache, "events": events,
-            "declare": [declare_form, declare_length]}
+            "declare": [declare_form, declare_length],
+            # half of the runs do not read the whole lazy array first (a read fills a keeping cache, after which
+            # most lazy paths are not taken any more)
+            "initial_read": r.random() < 0.5}
 
 
 def generate_partitioned(r, opts):
@@ -165,7 +177,12 @@ def execute(node, case, rec, opts):
         rec.probe("generator_returns_record_fields_in_another_order")
     rec.fault("cache:" + pol)
     rec.state(("topology", tuple(sorted(set(c.split(":")[0] for c in lg.node_classes(case["lazy"]))))))
-    declared = case["declare"][0] and case["declare"][1]
+    def all_declared(sp):
+        if sp["k"] == "virtual" and not (sp["declare_form"] and sp["declare_length"]):
+            return False
+        return all(all_declared(c) for c in ([sp["content"]] if "content" in sp else sp.get("contents", [])))
+    # (a virtual array whose generator yields another virtual array declares no Form: see layout_gen.insert_virtuals)
+    declared = case["declare"][0] and case["declare"][1] and all_declared(case["lazy"])
 
     def gen_calls():
         return {k: node.gen_calls(g) for k, g in rz.gens.items()}
@@ -174,12 +191,15 @@ def execute(node, case, rec, opts):
     lslots, eslots = [lazy], [eager]      # parallel pools; None = no array in that slot
 
     # the untouched lazy structure is transparent to start with
-    o = outcome(node, lambda: node.op(23, lazy))
-    if o[0] != "value" or not same_value(o[1], want):
-        raise Violation("transparency", "lazy_array_differs_from_eager", {"stage": "initial read", "expected": vm.to_jsonable(want),
-                                                                          "observed": o[1] if o[0] != "value" else vm.to_jsonable(o[1])})
-    node.drop(o[2])
-    node.seam_log()
+    if case.get("initial_read", True):
+        o = outcome(node, lambda: node.op(23, lazy))
+        if o[0] != "value" or not same_value(o[1], want):
+            raise Violation("transparency", "lazy_array_differs_from_eager", {"stage": "initial read", "expected": vm.to_jsonable(want),
+                                                                              "observed": o[1] if o[0] != "value" else vm.to_jsonable(o[1])})
+        node.drop(o[2])
+        node.seam_log()
+    else:
+        rec.probe("no_initial_read")
 
     for t, ev in enumerate(case["events"]):
         rec.ticks += 1
@@ -350,12 +370,18 @@ def execute(node, case, rec, opts):
         elif consumed:
             rec.fault("gen_" + fault["kind"])
             # enforcement: the faulty generation must surface as an error ...
-            if lo_[0] == "value":
+            trimmed = False
+            if lo_[0] == "value" and fault["kind"] == "long" and same_outcome(eo, lo_):
+                # ... except that a generation *longer* than declared may also be cut to the declared length: the
+                # declared length is enforced either way, and nothing of the surplus is visible
+                trimmed = True
+                rec.probe("longer_generation_not_visible")
+            elif lo_[0] == "value":
                 raise Violation("enforcement", "faulty_generation_went_unnoticed",
                                 {"event": ev, "fault": fault, "lazy_result": vm.to_jsonable(lo_[1]),
                                  "eager_result": vm.to_jsonable(eo[1]), "seam_log": log}, at=t)
             # ... and must not be stored: no 'set' for that key between the failed generation and the next good one
-            for k in set(consumed):
+            for k in set(consumed) if not trimmed else ():
                 bad = False
                 for ln in log:
                     w = ln.split()
@@ -739,7 +765,8 @@ ASSUMPTIONS = [
     "form); cache keys are explicit and unique; a virtual node is never placed directly under a string list "
     "(an invalid layout by the documented rules)",
     "'short' faults are injected only when the length is declared and 'wrong form' only when the form is declared "
-    "(nothing is promised otherwise); a generated array longer than declared is not an error in this code",
+    "(nothing is promised otherwise); a generation longer than declared ('long': the same items followed by one or two of "
+    "them again, same Form) must either raise or be invisible - the library accepts it and cuts it to the declared length",
     "at-most-once generation under a keeping cache is recorded as a probe, not demanded",
     "only the C++ layer is decided: ak.virtual, ak.materialized, ak.partitioned, ak.repartition and "
     "src/awkward/partition.py cannot run here",
